@@ -11,7 +11,7 @@ import asyncio
 from datetime import datetime, timedelta, timezone
 from typing import Any
 
-from .. import batdata, fakes
+from .. import batdata, distmon, fakes
 from ..vloop import run_virtual
 
 ID = "C17"
@@ -104,9 +104,11 @@ async def _drive(case: dict[str, Any], probes: list[float], out: dict[str, Any])
     for p in probes:
         for adj in (True, False):
             req = Request(power=Power.from_watts(p), component_ids=set(all_bats), adjust_power=adj)
+            distmon._stage.clear()  # noqa: SLF001
             await mgr.distribute_power(req)
             res = res_rx.consume() if res_rx._q else None  # noqa: SLF001
             out["results"].append((p, adj, res))
+            out["hook"].append(distmon.excl_hook_mismatch(case, distmon._stage.get("multi_in"), p > 0))  # noqa: SLF001
     await mgr.stop()
 
 
@@ -149,8 +151,17 @@ def check(case: dict[str, Any], rec: Any) -> None:
         rec.violation("advertised-exclusion-below-sum-of-group-min-powers",
                       {"advertised_exclusion": [el, eu], "sum_min_power_consume": min_up, "sum_min_power_supply": min_dn})
 
-    out: dict[str, Any] = {"results": []}
+    out: dict[str, Any] = {"results": [], "hook": []}
+    distmon.install()
     run_virtual(lambda: _drive(case, probes, out))
+    for (p, adj, _res), bad in zip(out["results"], out["hook"]):
+        rec.count("inverter_exclusion_hook_checks")
+        if bad:
+            # "... so it can be distributed without entering any exclusion zone": the distributor must work with each
+            # inverter's own exclusion bound (hooked argument of the split stage)
+            rec.violation("distribution-works-with-an-exclusion-bound-that-is-not-the-inverter's-own",
+                          {"probe": p, "adjust_power": adj, "mismatch": bad})
+            break
     n_in = n_out = 0
     for p, adj, res in out["results"]:
         rec.count("probes_checked")
